@@ -61,3 +61,14 @@ Definition chk_custom (c : gkind * Z * Z * list spattern * option (list (spatter
       | None, None => true
       | _, _ => false end
   end.
+
+(* xDMA set_stride_patterns: (extension kind, raw patterns, real result) *)
+From Snax Require Import Model.C02Xdma.
+Definition chk_xcustom (c : xkind * list spattern * option (list (spattern * src))) : bool :=
+  match c with
+  | (k, ps, want) =>
+      match xdma_customise k ps, want with
+      | Some a, Some b => list_eqb slot_eqb a b
+      | None, None => true
+      | _, _ => false end
+  end.
